@@ -142,6 +142,7 @@ func formsProg(r *h.Rand, fs formSet) *prog {
 	p.globals.Add(bind("sum", vFunc("sum")))
 	p.globals.Add(bind("joinv", vFunc("joinv")))
 	p.globals.Add(bind("stage", vFunc("stage")))
+	p.globals.Add(bind("stageb", vFunc("stageb")))
 	return p
 }
 
@@ -181,6 +182,19 @@ func genStageCase(r *h.Rand) h.Case {
 	want := "s"
 	var ids []int
 	piped := false
+	if r.Chance(35) {
+		// the innermost call yields a []byte: a func(string) string callee converts it - and calls it once
+		ids = append(ids, 90)
+		switch r.Intn(3) {
+		case 0:
+			src, want = `upper(stageb(90, "s"))`, "S90"
+		case 1:
+			src, want = `lower: stageb(90, "S")`, "s90"
+			piped = true // a colon call takes the rest of the action: only pipes may follow
+		default:
+			src, want = `trimSpace(stageb(90, " s"))`, "s90"
+		}
+	}
 	for k := 1; k <= n; k++ {
 		ids = append(ids, k)
 		form := r.Intn(4)
